@@ -3,6 +3,7 @@ import TsRsVerif.Model.Deps
 import TsRsVerif.Lemmas.DfsLemmas
 import TsRsVerif.Lemmas.ExportLemmas
 import TsRsVerif.Lemmas.WalkSeq
+import TsRsVerif.Lemmas.WalkFiles
 /-!
 # C11 — an export writes exactly the root's and its dependencies' files
 
@@ -120,6 +121,60 @@ theorem C11_export_all_is_a_sequence (u : Universe) (fuel : Nat) (w w' : World) 
   intro j
   rw [← C11_visits_exactly_reachable u fuel w w' dir i seen' h j, hs]
   simp
+
+/-- **`export_all`, end to end**: a successful `export_all` from `i` over a table whose reachable entries are well-formed generated
+texts with documented locations (`TableOK`: output path, text, identifier, target file; `TSlotsOK`: the target files are proper, different,
+not ancestors of one another, not directories, no regular file on the way; every `dir / output_path()` has the normal form of its
+target; per file distinct names) leaves, in EVERY target file that received a type, exactly the canonical text of the reachable types
+that belong there (`files`), every other regular file as it was (`others`), and the registry listing exactly those types — whatever
+the order of the walk, whatever directories existed before. Composition of `C11_export_all_is_a_sequence`, `runInto_eq_runOpsTo`
+(`export_into` = `export_to` at `dir / output_path()`) and the several-files theorem of C06. -/
+theorem C11_export_all_files (u : Universe) (slots : List TSlot) (dir : Str) (gen : Nat → GenT) (rel : Nat → Str) (slotOf : Nat → Nat)
+    (fuel : Nat) (w w' : World) (i : Nat) (seen' : List Nat)
+    (h : exportRec u fuel w [] dir i = some (w', seen', .ok))
+    (htab : ∀ j, Reach u i j → TableOK u slots dir gen rel slotOf j)
+    (hs : TSlotsOK w.fs slots)
+    (hsp : ∀ j, Reach u i j → ∀ s, slots[slotOf j]? = some s → Path.absolute (cwdStr w.fs) (Path.join dir (rel j)) = .ok s.path)
+    (hgen : ∀ j, Reach u i j → GenOK (gen j))
+    (hname : ∀ j j', Reach u i j → Reach u i j' → slotOf j = slotOf j' → (gen j).name = (gen j').name → j = j')
+    (hident : ∀ j j', Reach u i j → Reach u i j' → slotOf j = slotOf j' → (gen j).ident = (gen j').ident → j = j')
+    (hp : w.poisoned = false) (hreg : ∀ s ∈ slots, regGet w.reg (regKey s.path) = none) :
+    ∃ order : List Nat, order.Nodup ∧ (∀ j, j ∈ order ↔ Reach u i j) ∧
+      TInv w.fs slots (order.map fun j => (slotOf j, gen j)) w' := by
+  obtain ⟨order, hnd, hmem, hrun⟩ := C11_export_all_is_a_sequence u fuel w w' dir i seen' h
+  obtain ⟨w'', hrun', hinv⟩ := runInto_files u slots dir gen rel slotOf order hnd w
+    (fun j hj => htab j ((hmem j).mp hj)) hs (fun j hj => hsp j ((hmem j).mp hj)) (fun j hj => hgen j ((hmem j).mp hj))
+    (fun j hj j' hj' => hname j j' ((hmem j).mp hj) ((hmem j').mp hj')) (fun j hj j' hj' => hident j j' ((hmem j).mp hj) ((hmem j').mp hj'))
+    hp hreg
+  rw [hrun] at hrun'
+  have : w' = w'' := by injection hrun' with h1 _
+  subst this
+  exact ⟨order, hnd, hmem, hinv⟩
+
+/-! non-vacuity of `C11_export_all_files`: three types in two files (two of them share `shared.ts`), a cycle; the walk succeeds and
+each file holds the canonical text of its types -/
+def exGA : GenT := ⟨"Alpha".toList, "Alpha".toList, [("./Other".toList, ["Other".toList])], "export type Alpha = { o: Other, };".toList⟩
+def exGB : GenT := ⟨"Beta".toList, "Beta".toList, [], "export type Beta = { a: Alpha, };".toList⟩
+def exGO : GenT := ⟨"Other".toList, "Other".toList, [("./deep/shared".toList, ["Beta".toList])], "export type Other = Beta | null;".toList⟩
+def exGen : Nat → GenT := fun j => if j = 0 then exGA else if j = 1 then exGB else exGO
+def exRel : Nat → Str := fun j => if j = 2 then "Other.ts".toList else "deep/shared.ts".toList
+def exSlotOf : Nat → Nat := fun j => if j = 2 then 1 else 0
+def exGU : Universe := [0, 1, 2].map fun j => { ident := (exGen j).ident, outputPath := some (exRel j), text := .ok (genText (exGen j)), deps := [(j + 2) % 3] }
+def exGSlots : List TSlot := [⟨["w".toList, "out".toList, "deep".toList], "shared.ts".toList⟩, ⟨["w".toList, "out".toList], "Other.ts".toList⟩]
+def exGW : World := { fs := { nodes := [(["w".toList], .dir)], cwd := ["w".toList] }, reg := [] }
+example : ∀ j, j < 3 → TableOK exGU exGSlots "./out".toList exGen exRel exSlotOf j ∧
+    (∀ s, exGSlots[exSlotOf j]? = some s → Path.absolute (cwdStr exGW.fs) (Path.join "./out".toList (exRel j)) = .ok s.path) := by
+  intro j hj
+  rcases j with _ | _ | _ | j
+  · exact ⟨⟨⟨_, rfl, rfl, rfl, rfl⟩, by decide⟩, by intro s hs; simp [exSlotOf, exGSlots] at hs; subst hs; decide +kernel⟩
+  · exact ⟨⟨⟨_, rfl, rfl, rfl, rfl⟩, by decide⟩, by intro s hs; simp [exSlotOf, exGSlots] at hs; subst hs; decide +kernel⟩
+  · exact ⟨⟨⟨_, rfl, rfl, rfl, rfl⟩, by decide⟩, by intro s hs; simp [exSlotOf, exGSlots] at hs; subst hs; decide +kernel⟩
+  · omega
+#guard ((exportRec exGU 8 exGW [] "./out".toList 0).map fun r => (r.2.1, r.2.2 == Outcome.ok)) == some ([1, 2, 0], true)
+#guard ((exportRec exGU 8 exGW [] "./out".toList 0).bind fun r => r.1.fs.lookup ["w".toList, "out".toList, "deep".toList, "shared.ts".toList])
+  == some (.file (fileText (canonSt [exGA, exGB])))
+#guard ((exportRec exGU 8 exGW [] "./out".toList 0).bind fun r => r.1.fs.lookup ["w".toList, "out".toList, "Other.ts".toList])
+  == some (.file (fileText (canonSt [exGO])))
 
 /-- **the three documented locations**: `<TypeScript name>.ts` by default; the given path with `<TypeScript name>.ts` appended
 when `export_to` ends in `/`; the given path verbatim otherwise — whatever its extension (`output_path()` as generated by the
